@@ -14,6 +14,7 @@ class _hashable(tuple):
     >>> assert _prehash(dict(a = 1)) != _prehash((('a', 1),)) 
     >>> assert _prehash(dict(a = 1, b = [2])) == _prehash(dict(b = [2], a = 1))
     >>> assert _prehash({1,2}) == frozenset([1,2])
+    >>> assert _prehash({None : 1, 'a' : 2}) == _prehash({'a' : 2, None : 1})
     >>> from collections import OrderedDict
     >>> assert _prehash(OrderedDict(a = 1, b = 2)) != _prehash(OrderedDict(b = 2, a = 1)) and OrderedDict(a = 1, b = 2) != OrderedDict(b = 2, a = 1)
     """
@@ -34,10 +35,9 @@ def _prehash(value):
         if isinstance(value, OrderedDict): # two OrderedDicts are == only if their items come in the same order
             return _hashable([OrderedDict] + items)
         try:
-            items = sorted(items)
-        except TypeError:
-            pass
-        return _hashable([dict] + items)
+            return _hashable([dict, frozenset(items)]) # == of dicts ignores the insertion order, so does a frozenset of the items; keys need not be sortable ({None:1, 'a':2}, frozenset keys)
+        except TypeError: # an unhashable value: the key stays unhashable, the function is evaluated on every call
+            return _hashable([dict] + items)
     elif isinstance(value, (set, frozenset)):
         return frozenset(value)
     else:
